@@ -162,6 +162,12 @@ def evaluate(case):
                 bad.append('transcript-confidence')
         if bag.transcript_confidence('not there') != 0.0:
             bad.append('missing')
+        if case.get('lm_weight_2') is not None:
+            bag.lm_weight = _f(case['lm_weight_2'])
+            ps2 = [math.exp(x) for x in bag.posteriors()]
+            c2 = bag.confidence()
+            if not _close(sum(ps2), 1.0) or any(p < 0 for p in ps2) or not (0 < c2 <= 1 + TOL):
+                bad.append('posteriors-sum-reweighted: %r, confidence %r' % (ps2, c2))
         return {'conf': conf}, bad
     raise ValueError(mode)
 
